@@ -85,6 +85,10 @@ def run(chk, tier, scale=1.0):
     mjobs = [dict(build=(bplain if k % 2 else b), n=n, seed=chk.seed * 100 + k, mixed=(k % 4 < 2))
              for k, n in enumerate([8, 16, 31, 32, 31, 32, 33, 40] * (1 if tier == "quick" else 6))]
     prun.fold(chk, "C06", vcommon.pmap(_many_worker, mjobs))
+    # bursts of complete clients, half of them over ONE socket that is the daemon's standard input and output with a reader who
+    # falls behind: when the daemon has come to rest, the drone check has been asked about every one of them
+    pcommon.fold_bursts(chk, "C06", tier, scale, b, 983)
+    chk.require("burst_queries_seen", 300 * min(1.0, scale))
     chk.rule = ("all 120 arrival orders x service tables (each of login, login-ipr, dronecheck, combined alone and mixed) x reply policies x hurry-up / timeout positions, "
                 "fields at limit-1 / limit / limit+1 bytes (nick 30, user 10 with and without ~, ident incl. empty, host 63, real name 50), IPv4 and IPv6 clients, malformed "
                 "passwords of every kind followed by well-formed ones, second N/u/n/U lines, challenge responses; rules per X line: service configured, verb fits its protocol, "
@@ -98,4 +102,6 @@ def run(chk, tier, scale=1.0):
 
 
 def replay(chk, rep):
+    if rep["witness"].get("burst"):
+        return pcommon.replay_burst(chk, rep["witness"], "C06", "c06-replay")
     return prun.replay_witness(chk, rep, PROPS)
